@@ -1111,6 +1111,13 @@ pub fn gen_module(rng: &mut Rng, cfg: &GenCfg) -> Generated {
         }
         n_import_entries += 1;
     }
+    let want_extern_elem = cfg.ref_types && cfg.extern_elem_global && rng.chance(1, 3);
+    if want_extern_elem {
+        imports.import("env", "xg", EntityType::Global(GlobalType { val_type: VT::ExternRef.enc(), mutable: false, shared: false }));
+        imported_globals.push((globals.len() as u32, VT::ExternRef));
+        globals.push(GlobalInfo { ty: VT::ExternRef, mutable: false, imported: true });
+        n_import_entries += 1;
+    }
     let n_imported_funcs = funcs.len();
     // ---- local functions
     let nfuncs = rng.range(1, cfg.max_funcs as u64) as usize;
@@ -1129,6 +1136,12 @@ pub fn gen_module(rng: &mut Rng, cfg: &GenCfg) -> Generated {
         let max = if rng.chance(1, 2) { Some(min + rng.below(5)) } else { None };
         table_sec.table(TableType { element_type: elem.reft(), table64: false, minimum: min, maximum: max, shared: false });
         tables.push(TableInfo { elem });
+    }
+    let mut ntables = ntables;
+    if want_extern_elem && !tables.iter().any(|t| t.elem == VT::ExternRef) {
+        table_sec.table(TableType { element_type: VT::ExternRef.reft(), table64: false, minimum: 4, maximum: None, shared: false });
+        tables.push(TableInfo { elem: VT::ExternRef });
+        ntables += 1;
     }
     // ---- memories
     let mut mem_sec = MemorySection::new();
@@ -1200,6 +1213,15 @@ pub fn gen_module(rng: &mut Rng, cfg: &GenCfg) -> Generated {
     let mut elem_tys = vec![];
     let nelems = if tables.is_empty() && !cfg.bulk { 0 } else { rng.below(4) };
     let mut n_elem = 0;
+    if want_extern_elem {
+        // an active externref segment whose items read an (otherwise possibly unused) imported global
+        let t = tables.iter().position(|t| t.elem == VT::ExternRef).unwrap() as u32;
+        let gs: Vec<u32> = imported_globals.iter().filter(|(_, t)| *t == VT::ExternRef).map(|p| p.0).collect();
+        let exprs: Vec<ConstExpr> = vec![ConstExpr::global_get(*rng.pick(&gs)), ConstExpr::ref_null(HeapType::EXTERN)];
+        elem_sec.active(Some(t), &ConstExpr::i32_const(0), Elements::Expressions(RefType::EXTERNREF, &exprs));
+        elem_tys.push(VT::ExternRef);
+        n_elem += 1;
+    }
     for _ in 0..nelems {
         let want_mode = rng.below(3);
         // pick a table for active segments
